@@ -327,6 +327,10 @@ BYTE_PREDICATES = {
 }
 
 
+class EvalPanic(Exception):
+    """the evaluated expression would panic for this input (slice / index out of range, arithmetic overflow, unwrap on None / Err)"""
+
+
 class Ret(Exception):
     def __init__(self, v):
         self.v = v
@@ -398,7 +402,12 @@ class Interp:
                    '<': lambda: a < b, '<=': lambda: a <= b, '>': lambda: a > b, '>=': lambda: a >= b,
                    '==': lambda: a == b, '!=': lambda: a != b}
             if op in ops:
-                return ops[op]()
+                r = ops[op]()
+                ty = (e.get('t') or '').strip()
+                if op in ('+', '-', '*') and ty in INT_BOUNDS and isinstance(r, int) and not isinstance(r, bool) and getattr(self, 'checked_arith', False) \
+                        and not (INT_BOUNDS[ty][0] <= r <= INT_BOUNDS[ty][1]):
+                    raise EvalPanic(f'`{a} {op} {b}` overflows {ty} (line {e.get("l")})')
+                return r
         if k == 'if':
             c = self.val(e['cond'], env)
             if c:
@@ -423,11 +432,13 @@ class Interp:
                 if isinstance(idx, tuple) and idx and idx[0] == 'range':
                     lo = 0 if idx[1] in (None, -INF) else idx[1]
                     hi = len(base) if idx[2] in (None, INF) else idx[2] + 1
-                    if lo > hi or hi > len(base):
-                        raise Unanalysable('slice out of range in evaluation')
+                    if lo > hi or hi > len(base) or lo < 0:
+                        raise EvalPanic(f'slice {lo}..{hi} out of range for length {len(base)} (line {e.get("l")})')
                     return base[lo:hi]
-                if isinstance(idx, int) and not isinstance(idx, bool) and 0 <= idx < len(base):
-                    return base[idx]
+                if isinstance(idx, int) and not isinstance(idx, bool):
+                    if 0 <= idx < len(base):
+                        return base[idx]
+                    raise EvalPanic(f'index {idx} out of range for length {len(base)} (line {e.get("l")})')
             raise Unanalysable('index expression the evaluator does not model')
         if k == 'match':
             v = self.val(e['scrut'], env)
@@ -463,6 +474,11 @@ class Interp:
                 return args[0]
             if 'RangeInclusive' in p and seg == 'new':
                 return ('range', args[0], args[1])
+            if seg == 'from_utf8' and 'str' in p and len(args) == 1 and isinstance(args[0], tuple) and all(isinstance(x, int) for x in args[0]):
+                try:
+                    return ('ctor', 'core::result::Result::Ok', (bytes(args[0]).decode('utf-8'),))
+                except UnicodeDecodeError:
+                    return ('ctor', 'core::result::Result::Err', (('utf8-error',),))
             if p in ('core::cmp::max', 'core::cmp::min', 'std::cmp::max', 'std::cmp::min') and len(args) == 2 \
                     and all(isinstance(x, int) and not isinstance(x, bool) for x in args):
                 return max(args) if seg == 'max' else min(args)
@@ -476,9 +492,72 @@ class Interp:
             if isinstance(recv, int) and not isinstance(recv, bool) and name in BYTE_PREDICATES and not args:
                 return BYTE_PREDICATES[name](recv)
             SOME, NONE, OK, ERR = 'core::option::Option::Some', 'core::option::Option::None', 'core::result::Result::Ok', 'core::result::Result::Err'
-            if isinstance(recv, (str, tuple)) and not (isinstance(recv, tuple) and recv and recv[0] in ('ctor', 'struct', 'range', 'closure')):
+            opt = lambda x: ('ctor', NONE) if x is None else ('ctor', SOME, (x,))
+            if isinstance(recv, tuple) and len(recv) == 2 and recv[0] == 'iter':
+                xs = recv[1]
+                truth = lambda c, x: bool(self.apply(c, [x]))
+                if name == 'rev' and not args:
+                    return ('iter', list(reversed(xs)))
+                if name == 'enumerate' and not args:
+                    return ('iter', [(i, x) for i, x in enumerate(xs)])
+                if name in ('copied', 'cloned', 'by_ref', 'into_iter', 'iter', 'peekable') and not args:
+                    return recv
+                if name == 'count' and not args:
+                    return len(xs)
+                if name == 'last' and not args:
+                    return opt(xs[-1] if xs else None)
+                if name in ('collect', 'to_vec') and not args:
+                    return tuple(xs)
+                if name == 'sum' and not args:
+                    return sum(xs)
+                if name in ('max', 'min') and not args:
+                    return opt((max if name == 'max' else min)(xs) if xs else None)
+                if name in ('take', 'skip', 'nth') and len(args) == 1 and isinstance(args[0], int):
+                    if name == 'take':
+                        return ('iter', xs[:args[0]])
+                    if name == 'skip':
+                        return ('iter', xs[args[0]:])
+                    return opt(xs[args[0]] if 0 <= args[0] < len(xs) else None)
+                if len(args) == 1 and isinstance(args[0], tuple) and args[0] and args[0][0] == 'closure':
+                    c = args[0]
+                    if name == 'filter':
+                        return ('iter', [x for x in xs if truth(c, x)])
+                    if name == 'map':
+                        return ('iter', [self.apply(c, [x]) for x in xs])
+                    if name == 'find':
+                        return opt(next((x for x in xs if truth(c, x)), None))
+                    if name == 'position':
+                        return opt(next((i for i, x in enumerate(xs) if truth(c, x)), None))
+                    if name == 'rposition':
+                        return opt(next((i for i in range(len(xs) - 1, -1, -1) if truth(c, xs[i])), None))
+                    if name == 'any':
+                        return any(truth(c, x) for x in xs)
+                    if name == 'all':
+                        return all(truth(c, x) for x in xs)
+                    if name == 'take_while':
+                        out = []
+                        for x in xs:
+                            if not truth(c, x):
+                                break
+                            out.append(x)
+                        return ('iter', out)
+                    if name == 'filter_map':
+                        out = []
+                        for x in xs:
+                            r = self.apply(c, [x])
+                            if isinstance(r, tuple) and r[:2] == ('ctor', SOME):
+                                out.append(r[2][0])
+                        return ('iter', out)
+            if isinstance(recv, (str, tuple)) and not (isinstance(recv, tuple) and recv and recv[0] in ('ctor', 'struct', 'range', 'closure', 'iter')):
+                if name in ('iter', 'into_iter') and not args and isinstance(recv, tuple):
+                    return ('iter', list(recv))
+                if name in ('bytes', 'as_bytes') and not args and isinstance(recv, str):
+                    b = tuple(recv.encode('utf-8'))
+                    return ('iter', list(b)) if name == 'bytes' else b
+                if name == 'chars' and not args and isinstance(recv, str):
+                    return ('iter', [ord(c) for c in recv])
                 if name == 'len' and not args:
-                    return len(recv)
+                    return len(recv.encode('utf-8')) if isinstance(recv, str) else len(recv)
                 if name == 'is_empty' and not args:
                     return len(recv) == 0
                 if name == 'get' and len(args) == 1 and isinstance(args[0], int):
@@ -503,6 +582,10 @@ class Interp:
                         return ('ctor', OK, recv[2]) if recv[1] == SOME else ('ctor', ERR, (self.apply(args[0], []),))
                     if name == 'is_some' and not args:
                         return recv[1] == SOME
+                if name in ('unwrap', 'expect') and recv[1] in (OK, ERR, SOME, NONE):
+                    if recv[1] in (OK, SOME):
+                        return recv[2][0]
+                    raise EvalPanic(f'{name}() on {last_seg(recv[1])} (line {e.get("l")})')
                 if recv[1] in (OK, ERR):
                     if name == 'map_err' and len(args) == 1:
                         return recv if recv[1] == OK else ('ctor', ERR, (self.apply(args[0], [recv[2][0]]),))
@@ -510,6 +593,14 @@ class Interp:
                         return ('ctor', OK, (self.apply(args[0], [recv[2][0]]),)) if recv[1] == OK else recv
                     if name == 'ok' and not args:
                         return ('ctor', SOME, recv[2]) if recv[1] == OK else ('ctor', NONE)
+                    if name == 'or_else' and len(args) == 1:
+                        return recv if recv[1] == OK else self.apply(args[0], [recv[2][0]])
+                    if name == 'and_then' and len(args) == 1:
+                        return self.apply(args[0], [recv[2][0]]) if recv[1] == OK else recv
+                    if name == 'unwrap_or_else' and len(args) == 1:
+                        return recv[2][0] if recv[1] == OK else self.apply(args[0], [recv[2][0]])
+                    if name == 'unwrap_or' and len(args) == 1:
+                        return recv[2][0] if recv[1] == OK else args[0]
                     if name in ('is_ok', 'is_err') and not args:
                         return (recv[1] == OK) == (name == 'is_ok')
             if isinstance(recv, bool):
@@ -837,3 +928,37 @@ FLOAT_REPS = {
     '-0.0': -0.0, '0.0': 0.0, '2.0': 2.0, '-2.0': -2.0, '1e20': 1e20, '1.5': 1.5, '-1.5': -1.5, '5e-324': 5e-324,
     'max': 1.7976931348623157e308, '-max': -1.7976931348623157e308, 'inf': math.inf, '-inf': -math.inf,
 }
+
+
+class ParseValueInterp(FxInterp):
+    """Evaluates the *value* a parser function computes from the outputs of its atomic sub-parsers, which are supplied in parse order:
+    `(a, b).map(|(x, y)| f(x, y)).parse_next(input)` and `let x = a.parse_next(input)?; let y = b.parse_next(input)?; Ok(f(x, y))`
+    both become f(outputs[0], outputs[1]).  Nothing is parsed: every `parse_next` is a hole filled from the list."""
+
+    def __init__(self, ev, outputs):
+        super().__init__(ev)
+        self.queue = list(outputs)
+
+    def output_of(self, pe, env):
+        pe = peel(pe)
+        k = pe.get('k')
+        if k == 'tup':
+            return tuple(self.output_of(x, env) for x in pe['elems'])
+        if k == 'mcall' and pe.get('name') in ('context', 'by_ref'):
+            return self.output_of(pe['recv'], env)
+        if k == 'mcall' and pe.get('name') == 'map' and pe.get('args'):
+            inner = self.output_of(pe['recv'], env)
+            return self.apply(self.val(pe['args'][0], env), [inner])
+        if k == 'mcall' and pe.get('name') == 'value' and pe.get('args'):
+            self.output_of(pe['recv'], env)
+            return self.val(pe['args'][0], env)
+        if k == 'call' and (peel(pe.get('f', {})).get('path') or '').endswith('combinator::debug::trace') and len(pe.get('args', [])) == 2:
+            return self.output_of(pe['args'][1], env)
+        if not self.queue:
+            raise Unanalysable('more sub-parsers than supplied outputs')
+        return self.queue.pop(0)
+
+    def val(self, e, env):
+        if e.get('k') == 'mcall' and e.get('name') == 'parse_next':
+            return ('ctor', 'core::result::Result::Ok', (self.output_of(e['recv'], env),))
+        return super().val(e, env)
